@@ -29,8 +29,10 @@ import (
 	"math/rand"
 	"os"
 	"reflect"
+	"runtime"
 	"strconv"
 	"strings"
+	"syscall"
 
 	seccomp "github.com/elastic/go-seccomp-bpf"
 	"github.com/elastic/go-seccomp-bpf/arch"
@@ -67,6 +69,7 @@ type summary struct {
 	Retargeted            int            `json:"retargeted_values"`
 	HostOrderCompilations int            `json:"host_order_compilations"`
 	WholeTable            int            `json:"whole_table_compilations"`
+	OtherDomain           int            `json:"compilations_under_PER_LINUX32"`
 	Accepted              int            `json:"accepted"`
 	Rejected              int            `json:"rejected"`
 	Events                int            `json:"events"`
@@ -96,12 +99,31 @@ func fail(f failure) {
 	}
 }
 
+// compileCount numbers the compilations; every third one runs under another execution domain (see compile).
+var compileCount int
+
 func compile(pol *seccomp.Policy) (insts []bpf.Instruction, err error, pan interface{}) {
 	defer func() {
 		if r := recover(); r != nil {
 			pan = r
 		}
 	}()
+	// What a policy compiles to is a function of the policy (and, for the architecture left unset, of the CPU target the library
+	// was built for) - not of what the process is told about the machine: every third compilation runs on a thread whose
+	// execution domain is PER_LINUX32 (setarch i686 / linux32: uname(2) then reports i686 to a 64-bit process) or UNAME26.
+	compileCount++
+	if compileCount%3 == 0 {
+		runtime.LockOSThread()
+		defer runtime.UnlockOSThread()
+		per := uintptr(0x0008) // PER_LINUX32
+		if compileCount%2 == 0 {
+			per |= 0x0020000 // UNAME26
+		}
+		if old, _, e := syscall.RawSyscall(syscall.SYS_PERSONALITY, per, 0, 0); e == 0 {
+			sum.OtherDomain++
+			defer syscall.RawSyscall(syscall.SYS_PERSONALITY, old, 0, 0)
+		}
+	}
 	insts, err = pol.Assemble()
 	return
 }
@@ -308,6 +330,10 @@ func runCase(h *polcase.Header, idx int, cs *polcase.Case, c *polcase.Conc, rng 
 	before, _ := json.Marshal(polJSON(&pol))
 	snap0 := polsnap.Take(&pol)
 	shared := pol // a copy of the policy value that shares all slices
+	c.Domain = ""
+	if (compileCount+1)%3 == 0 {
+		c.Domain = "PER_LINUX32"
+	}
 	insts, err, pan := compile(&pol)
 	sum.Compilations++
 	// C13: the caller's policy is untouched, a second compilation of the value and a compilation of a copy that
@@ -840,6 +866,9 @@ func doReplay(path string) int {
 		seccomp.VerifSetEndian(binary.LittleEndian)
 	} else {
 		seccomp.VerifSetEndian(binary.BigEndian)
+	}
+	if dom, _ := rec.Conc["execution_domain"].(string); dom != "" {
+		compileCount = 2 // the next compilation runs under PER_LINUX32
 	}
 	insts, err, pan := compile(&pol)
 	fmt.Printf("kind=%s expected=%q\n", rec.Kind, rec.Expected)
